@@ -123,8 +123,49 @@ CellAt(d, s) ==
       [] d.kind \in BandKinds   -> BandCell(d, s)
       [] d.kind \in PackedKinds -> PackedCell(d, s)
 
+(************************* column-major twins *******************************)
+(* The typed wrapper packages (blas64, blas32, cblas128, cblas64) also define *)
+(* column-major twins of the dense and band layouts (GeneralCols,            *)
+(* TriangularCols, SymmetricCols, HermitianCols, BandCols, TriangularBand-   *)
+(* Cols, SymmetricBandCols, HermitianBandCols): the columns are contiguous,  *)
+(* element (i, j) of a dense matrix is at i + j*ld, and column j of a band   *)
+(* matrix holds its ku super-diagonal entries, the diagonal, and its kl      *)
+(* sub-diagonal entries in that order ("diagonals aligned").  Same           *)
+(* descriptor record as above; ld is the distance between columns.           *)
+ColSlot(d, i, j) ==
+    CASE d.kind \in DenseKinds -> i + j * d.ld
+      [] d.kind \in BandKinds  -> d.ku + i - j + j * d.ld
+ColMinLd(d) ==
+    CASE d.kind \in DenseKinds -> Max(1, d.r)
+      [] d.kind \in BandKinds  -> d.kl + d.ku + 1
+ColNeed(d) ==
+    IF d.c = 0 THEN 0
+    ELSE CASE d.kind \in DenseKinds -> (d.c - 1) * d.ld + d.r
+           [] d.kind \in BandKinds  -> IF d.r = 0 THEN 0 ELSE (d.c - 1) * d.ld + d.kl + d.ku + 1
+ColSlotSet(d) == {ColSlot(d, ij[1], ij[2]) : ij \in Cells(d)}
+\* the descriptor of the transposed matrix: column-major storage of A is row-major storage of A^T
+TrDesc(d) == [d EXCEPT !.r = d.c, !.c = d.r, !.kl = d.ku, !.ku = d.kl, !.ul = 1 - d.ul]
+\* inverse map: the cell stored at slot s of the column-major layout, or <<-1,-1>>
+ColCellAt(d, s) == LET c == CellAt(TrDesc(d), s) IN <<c[2], c[1]>>
+
 (***************************** theorems (R1) ********************************)
 (* Checked by TLC over a bounded descriptor grid in BlasAddrCheck.tla.       *)
+ColDual(d) ==
+    d.kind \in DenseKinds \cup BandKinds =>
+      /\ Cells(TrDesc(d)) = {<<ij[2], ij[1]>> : ij \in Cells(d)}
+      /\ \A ij \in Cells(d) : ColSlot(d, ij[1], ij[2]) = Slot(TrDesc(d), ij[2], ij[1])
+      /\ ColNeed(d) = Need(TrDesc(d)) /\ ColMinLd(d) = MinLd(TrDesc(d))
+ColInRange(d) ==
+    d.kind \in DenseKinds \cup BandKinds =>
+      \A ij \in Cells(d) : ColSlot(d, ij[1], ij[2]) \in 0 .. ColNeed(d) - 1
+ColInjective(d) ==
+    d.kind \in DenseKinds \cup BandKinds =>
+      \A p, q \in Cells(d) : ColSlot(d, p[1], p[2]) = ColSlot(d, q[1], q[2]) => p = q
+ColInverseOK(d) ==
+    d.kind \in DenseKinds \cup BandKinds =>
+      /\ \A ij \in Cells(d) : ColCellAt(d, ColSlot(d, ij[1], ij[2])) = ij
+      /\ \A s \in 0 .. ColNeed(d) + 1 : s \notin ColSlotSet(d) => ColCellAt(d, s) = <<-1, -1>>
+
 AddrInRange(d)      == \A ij \in Cells(d) : Slot(d, ij[1], ij[2]) \in 0 .. Need(d) - 1
 StorageInjective(d) == \A p, q \in Cells(d) : Slot(d, p[1], p[2]) = Slot(d, q[1], q[2]) => p = q
 \* the minimum length is attained (not for band storage, whose documented extent is the
